@@ -347,6 +347,8 @@ def run(cx):
     # the window must not pass a packet whose data is still held: its allocation is released there and the bytes are not
     from props.C03 import check_state_beliefs
     check_state_beliefs(cx, "C06.l")
+    from props.shared import window_pass_guard
+    window_pass_guard(cx, "C06.m")
 
 
 SELFTEST = [
